@@ -128,7 +128,11 @@ pub fn check(sc: &Scenario, ex: &mut Exec) -> (Verdict, Option<String>) {
         let base = DrawPlan::neutral(sc.engine_seed).release_all().with_cap(c01::cap_mode(sc)).with_row_id(DrawMode::Inc);
         let (r0, _) = match ex.query(&mut eng, "noise_map_neutral", &sql, &base) {
             Ok(x) => x,
-            Err(e) => return (Verdict::Skip(format!("engine_gap:{}", short(&e))), None),
+            Err(e) => {
+                ex.stats.probe("applied_sigma_skipped_engine_gap");
+                ex.log.push(format!("engine gap {}", short(&e)));
+                continue;
+            }
         };
         for c in cs {
             for sign in [1.0f64, -1.0] {
@@ -140,7 +144,7 @@ pub fn check(sc: &Scenario, ex: &mut Exec) -> (Verdict, Option<String>) {
                 }
                 let (rz, _) = match ex.query(&mut eng, "noise_map_z", &sql, &plan) {
                     Ok(x) => x,
-                    Err(e) => return (Verdict::Skip(format!("engine_gap:{}", short(&e))), None),
+                    Err(_) => continue,
                 };
                 if rz.rows.len() != r0.rows.len() {
                     continue;
@@ -191,7 +195,12 @@ pub fn check(sc: &Scenario, ex: &mut Exec) -> (Verdict, Option<String>) {
                 }
             }
         }
-        Err(e) => return (Verdict::Skip(format!("engine_gap_dp:{}", short(&e))), None),
+        Err(e) => {
+            // the engine rejects the rendered query (e.g. duplicate CTE names): the draw log is
+            // only a cross-check, the mechanisms below are read from the IR
+            ex.stats.probe("draw_log_skipped_engine_gap");
+            ex.log.push(format!("engine gap {}", short(&e)));
+        }
     }
 
     // ---- (ii) every mechanism is matched by an event entry that reports at least its loss
